@@ -6,8 +6,8 @@ resharing, randomness without PRSS) is observed through a harness-side wrapper:
   * it draws exactly t fresh coefficients per secret, each with secrets.randbelow(|F|);
   * the dealt shares interpolate (independent oracle) to the polynomial
     s + c[t-1] X + ... + c[0] X^t built from exactly those drawn coefficients;
-  * wire: in fields > 2^40 the payload a dealer sends to a peer is never the plain encoding
-    of the secrets it is dealing (false-alarm probability < 2^-40 per frame).
+  * wire: in fields > 2^40, what a dealer sends in the synchronous step right after dealing is
+    never the plain encoding of the secrets just dealt (unless it is that peer's share row).
 """
 from hypothesis import strategies as st
 from vlib import progs, refmath as R
@@ -84,26 +84,28 @@ def check_deals(sim, obs, m, t):
 
 
 def check_wire(sim, obs, m, t):
-    """No frame sent by a dealer is the plain encoding of the secrets of one of its deals."""
+    """What a dealer sends in the synchronous step right after a dealing call is never the plain
+    encoding of the secrets it has just dealt (unless that is also the peer's share row)."""
     if t < 1:
         return None
     from mpyc import finfields
-    plain = {}
     for d in obs.deals:
         if d['variant'] != 'random_split' or d['order'] < 1 << 40:
             continue
-        fld = finfields.GF(d['order'])
         vals = [_ival(x) % d['order'] for x in d['secrets']]
-        if any(vals):
-            plain.setdefault(d['pid'], set()).add(bytes(fld.to_bytes(vals)))
-    for i, encs in plain.items():
-        for j in range(m):
-            if j == i:
-                continue
-            _, frames, _ = sim.frames(i, j)
-            for f in frames:
-                if bytes(f.payload) in encs:
-                    return f'party {i} sent the plain encoding of dealt secrets to party {j} (label {f.pc})'
+        if not any(vals):
+            continue
+        fld = finfields.GF(d['order'])
+        plain = bytes(fld.to_bytes(vals))
+        for pid, peer, pc, data, step in obs.send_log[d['send_idx']:]:
+            if step != d['step']:
+                break
+            if pid != d['pid'] or pc != d['pc']:
+                continue  # only the messages of the dealing protocol instance itself
+            row = bytes(fld.to_bytes([_ival(y) % d['order'] for y in d['shares'][peer]]))
+            if data == plain and data != row:
+                return (f"party {pid} dealt secrets {vals[:3]} and sent their plain encoding to party {peer} "
+                        f"(label {pc}) instead of that party's share row")
     return None
 
 
@@ -117,7 +119,7 @@ def run_case(case):
 
     def hook(sim):
         sim.randbelow_args = []
-        holder['obs'] = Observer(sim, receives=False, tasks=False, keep_shares=True)
+        holder['obs'] = Observer(sim, receives=False, tasks=False, keep_shares=True, sends=True)
 
     try:
         sim, res, ref = progs.run_int_case(case, sim_hook=hook)
